@@ -11,8 +11,9 @@ broadcast_gradients = True over the data-parallel group) and the bucketing commu
 
 All ranks run the same history in lock step; a collective appears ONCE, with its member list,
 and rank r's program is the sub-sequence of the collectives it is a member of.  Scope: training
-passes and steps (`f1`, `s`), factors updated in the hooks, accumulation_steps = 1 — the
-configuration GPTNeoXKFACPreconditioner runs with by default.  Import-free, executable.
+passes and steps (`f1`, `s`), factors updated in the hooks or in `step()`
+(`update_factors_in_hook`), any `accumulation_steps` (every layer sees every pass: one counter of
+micro-batches).  Import-free, executable.
 -/
 import KfacVerif.Model.Neox
 import KfacVerif.Model.Comm
@@ -58,6 +59,8 @@ structure Cfg where
   esize : Nat
   sym : Bool                   -- symmetry_aware
   cube : Bool                  -- AssignmentStrategy.COMPUTE (n³) / MEMORY (n²)
+  hook : Bool := true          -- update_factors_in_hook
+  accum : Nat := 1             -- accumulation_steps
 deriving Repr
 
 def cost (c : Cfg) (n : Nat) : Nat := if c.cube then n * n * n else n * n
@@ -76,6 +79,7 @@ def dataGroup (c : Cfg) (p m : Nat) : List Nat := (List.range c.t.dp).map fun d 
 
 structure St where
   steps : Nat := 0
+  mini : Nat := 0            -- `_mini_steps` (the same for every layer: every layer sees every pass)
   tid : Nat := 0
   comm : Comm.CState
   acts : List NAct := []
@@ -102,37 +106,49 @@ def flush (s : St) : St :=
   let r := Comm.flush s.comm
   { s with comm := r.1, acts := s.acts ++ r.2.map ofEvent }
 
-/-- forward pre-hook of one layer on a factor-update iteration -/
-def fwdLayer (c : Cfg) (p : Nat) (s : St) (l : Layer) : St :=
-  let inv := invOf c p l
+/-- `reduce_a_factor` of one layer: replicated input (column-parallel) → all peers of the stage;
+    sharded input (row-parallel) → the primaries, over the data-parallel group of the inverse worker -/
+def reduceA (c : Cfg) (p : Nat) (s : St) (l : Layer) : St :=
   match l.par with
-  | .col =>
-    -- input replicated: A is reduced over all peers of the pipeline stage
-    reduceFactor c s (c.t.stagePeers p) l.aDim
-  | .row =>
-    -- sharded input gathered inside every model-parallel group, A reduced by the primaries over
-    -- the data-parallel group of the inverse worker
-    let s := (List.range c.t.dp).foldl
-      (fun s d => emitIf s (modelGroup c p d) .allgather (c.tokens * (l.inF / c.t.mp)) 0) s
-    reduceFactor c s (dataGroup c p (c.t.modelOf inv)) l.aDim
+  | .col => reduceFactor c s (c.t.stagePeers p) l.aDim
+  | .row => reduceFactor c s (dataGroup c p (c.t.modelOf (invOf c p l))) l.aDim
 
-/-- backward hook of one layer on a factor-update iteration -/
-def bwdLayer (c : Cfg) (p : Nat) (s : St) (l : Layer) : St :=
-  let inv := invOf c p l
+/-- `reduce_g_factor` of one layer -/
+def reduceG (c : Cfg) (p : Nat) (s : St) (l : Layer) : St :=
   match l.par with
   | .row => reduceFactor c s (c.t.stagePeers p) l.gDim
-  | .col =>
-    let s := (List.range c.t.dp).foldl
-      (fun s d => emitIf s (modelGroup c p d) .allgather (c.tokens * (l.outF / c.t.mp)) 0) s
-    reduceFactor c s (dataGroup c p (c.t.modelOf inv)) l.gDim
+  | .col => reduceFactor c s (dataGroup c p (c.t.modelOf (invOf c p l))) l.gDim
+
+/-- forward pre-hook of one layer on a factor-update iteration; `fire` = the factor is folded and
+    reduced in this hook (hook mode, last micro-batch of the accumulation window) -/
+def fwdLayer (c : Cfg) (p : Nat) (fire : Bool) (s : St) (l : Layer) : St :=
+  let s := match l.par with
+    | .col => s
+    | .row =>
+      -- sharded input gathered inside every model-parallel group
+      (List.range c.t.dp).foldl
+        (fun s d => emitIf s (modelGroup c p d) .allgather (c.tokens * (l.inF / c.t.mp)) 0) s
+  if fire then reduceA c p s l else s
+
+/-- backward hook of one layer on a factor-update iteration -/
+def bwdLayer (c : Cfg) (p : Nat) (fire : Bool) (s : St) (l : Layer) : St :=
+  let s := match l.par with
+    | .row => s
+    | .col =>
+      (List.range c.t.dp).foldl
+        (fun s d => emitIf s (modelGroup c p d) .allgather (c.tokens * (l.outF / c.t.mp)) 0) s
+  if fire then reduceG c p s l else s
 
 /-- one training forward + backward pass of every stage -/
 def trainPass (c : Cfg) (s : St) : St :=
   if s.steps % c.fus != 0 then s else
-  (List.range c.t.pp).foldl (fun s p =>
+  let mini := s.mini + 1
+  let fire := c.hook && mini % c.accum == 0
+  let s := (List.range c.t.pp).foldl (fun s p =>
     let ls := c.stages.getD p []
-    let s := ls.foldl (fwdLayer c p) s
-    ls.reverse.foldl (bwdLayer c p) s) s
+    let s := ls.foldl (fwdLayer c p fire) s
+    ls.reverse.foldl (bwdLayer c p fire) s) s
+  { s with mini := mini }
 
 /-- `preconditioned_grad` (model-parallel group of the inverse worker) + `broadcast_grad` (every
     data-parallel group of the stage) of one layer -/
@@ -159,12 +175,17 @@ def precondLayer (c : Cfg) (p : Nat) (s : St) (l : Layer) : St :=
   (List.range mp).foldl (fun s m => emitIf s (dataGroup c p m) .broadcast g (c.t.rankOf p ds m)) s
 
 def stepOp (c : Cfg) (s : St) : St :=
+  -- factors folded and reduced here when they are not updated in the hooks
+  let s := if !c.hook && s.steps % c.fus == 0 then
+      (List.range c.t.pp).foldl (fun s p =>
+        (c.stages.getD p []).reverse.foldl (fun s l => reduceG c p (reduceA c p s l) l) s) s
+    else s
   let s := flush s
   -- inverses: computed locally by the inverse workers, never broadcast (MEM-OPT); second flush
   let s := flush s
   let s := (List.range c.t.pp).foldl (fun s p => (c.stages.getD p []).reverse.foldl (precondLayer c p) s) s
   let s := flush s
-  { s with steps := s.steps + 1 }
+  { s with steps := s.steps + 1, mini := 0 }
 
 inductive Op where | train | step
 deriving Repr, DecidableEq
